@@ -18,11 +18,11 @@ func (world) Rule(p string) string {
 	base := "one run = 4-7 GRANDPA voters (C18: 1-10), fewer than a third Byzantine (C18: the adversary may hold any number of keys), each honest voter a real lib/grandpa.Service over real dot/state on its own simulated disk, on a generated block tree with forks that keeps growing and that nodes import at different times. Every step is tape-chosen: deliver one in-flight message (any order), advance one node's round driver by one action of finalisation.go (initiateRound / prevote incl. primary / precommit behind the real supermajority gate / attemptToFinalize + commit), a Byzantine action (votes and commit messages composed from own valid signatures, replayed honest precommits, forged, duplicated, equivocating, mis-numbered, wrong round/set/stage, non-authority entries; selective sending), block production/import, partition/heal, crash+restart from disk. Messages travel as bytes from the real encoders through the real decoders; per message the network may drop or duplicate. One third of the C21/C22 runs use the REAL round driver instead of the simulator's: Service.Start's vote tracker goroutine and finalisationHandler / finalisationEngine / votingRoundHandler goroutines with their real timers on the virtual clock, each node on a timer grid of its own so that one party is active at a time; the driver delivers messages, lets 10 ms - 4 s of virtual time pass, plays the Byzantine voters, restarts nodes; oracles there: safety after every step, every precommit a node's own driver sends has > 2/3 of the prevotes the node counts, every commit it announces carries > 2/3 valid precommits, uncountable votes leave the tallies unchanged. "
 	switch p {
 	case "C18":
-		return base + "C18 oracle: for every commit message delivered, an independent count of distinct authorities with a valid precommit on the target or a descendant plus authorities with two different valid precommits decides must-not/must finalise: finalised => count > 2n/3; clean messages at the boundary with count > 2n/3 => finalised. Non-trivial = at least one Byzantine commit or a finalisation."
+		return base + "C18 oracle: for every commit message delivered, an independent count of distinct authorities with a valid precommit on the target or a descendant plus authorities with two different valid precommits decides must-not/must finalise: finalised => count > 2n/3; clean messages at the boundary with count > 2n/3 => finalised. In a quarter of the runs the authority set changes for real (the Byzantine keys leave the set, every node moves to the next set id at its own moment, n and the threshold are those of the set the receiving node is in) and a pending commit may be handled by the node between the reads inside updateAuthorities. Non-trivial = at least one Byzantine commit or a finalisation."
 	case "C21":
 		return base + "C21 oracle: per node and round a model tally of the votes the statement says are countable; every vote that must not be counted leaves the node's tally unchanged, every countable vote is tallied (equivocators by the GRANDPA rule); the node's precommit equals the highest block with > 2/3 of the counted prevotes and it only finalises a block with > 2/3 of the counted precommits that is an ancestor of that target. Non-trivial as for C18."
 	case "C22":
-		return base + "C22 oracle (invariant after every event): the finalised heads of all honest nodes lie on one chain and each node's head only moves to descendants. Non-trivial = at least one fault or Byzantine action and one finalisation."
+		return base + "C22 oracle (invariant after every event): the finalised heads of all honest nodes lie on one chain and each node's head only moves to descendants. Non-trivial = at least one fault or Byzantine action and one finalisation. A sixth of the C22 runs instead execute 24 one-round scenarios of the generic implementation (pkg/finality-grandpa): 3-6 voters with weights 1-7 handed to NewVoterSet in a tape-chosen order, one of them optionally listed twice with split weight, Byzantine voters of total weight <= f, a tree of 2-7 blocks (half of the scenarios: two forks and a split attack in which every Byzantine voter tells each observer what it favours), every honest voter an observer with its own real Round that prevotes once and precommits once for the prevote-GHOST its Round reports, a network that reorders, drops and duplicates; every block any two observers ever report as finalised must lie on one chain."
 	}
 	return base
 }
